@@ -454,3 +454,160 @@ Proof.
   destruct (is_windows p); [reflexivity|].
   rewrite seccompProfileRestricted_1_19_spec. reflexivity.
 Qed.
+
+(** * The main theorem: each registered revision decides its row of the standard *)
+
+Lemma lookup_In {A} k (m : list (string * A)) v : lookup k m = Some v -> In (k, v) m.
+Proof.
+  induction m as [|[k' v'] m IH]; cbn [lookup]; [discriminate|].
+  destruct (String.eqb k k') eqn:E; intros H.
+  - apply String.eqb_eq in E. injection H as H. subst. left. reflexivity.
+  - right. apply IH, H.
+Qed.
+
+Theorem revisions_decide_standard :
+  forall (al : allowlists) (fn : string) (f : check_fn) (g : pod -> bool) (relax : bool) (p : pod),
+    lists_ok al = true -> lookup_check fn = Some f -> revision_spec fn = Some g ->
+    relax_pod relax p = false ->
+    cr_allowed (f al relax p) = g p.
+Proof.
+  intros al fn f g relax p Hl Hf Hg Hr.
+  apply lists_ok_inv in Hl. destruct Hl as (Hc & H0 & H27 & H29 & H32 & Hs0 & Hs31).
+  apply lookup_In in Hf. unfold check_dictionary in Hf. cbn [In] in Hf.
+  repeat (destruct Hf as [Hf|Hf];
+          [ injection Hf as E1 E2; subst fn f;
+            lazy beta zeta iota delta [revision_spec String.eqb Ascii.eqb Bool.eqb] in Hg;
+            injection Hg as Hg; subst g;
+            first [ apply appArmorProfile_1_0_spec
+                  | apply capabilitiesBaseline_1_0_spec; assumption
+                  | apply hostNamespaces_1_0_spec
+                  | apply hostPathVolumes_1_0_spec
+                  | apply hostPorts_1_0_spec
+                  | apply privileged_1_0_spec
+                  | apply procMount_1_0_spec; assumption
+                  | apply seLinuxOptions1_0_spec; assumption
+                  | apply seLinuxOptions1_31_spec; assumption
+                  | apply seccompProfileBaseline_1_0_spec
+                  | apply seccompProfileBaseline_1_19_spec
+                  | apply sysctlsV1Dot0_spec; assumption
+                  | apply sysctlsV1Dot27_spec; assumption
+                  | apply sysctlsV1Dot29_spec; assumption
+                  | apply sysctlsV1Dot32_spec; assumption
+                  | apply windowsHostProcess_1_0_spec
+                  | apply allowPrivilegeEscalation_1_8_spec
+                  | apply allowPrivilegeEscalation_1_25_spec
+                  | apply capabilitiesRestricted_1_22_spec
+                  | apply capabilitiesRestricted_1_25_spec
+                  | apply restrictedVolumes_1_0_spec
+                  | apply runAsNonRoot_1_0_spec; assumption
+                  | apply runAsUser_1_23_spec; assumption
+                  | apply seccompProfileRestricted_1_19_spec
+                  | apply seccompProfileRestricted_1_25_spec ]
+          | ]).
+  destruct Hf.
+Qed.
+
+(** every name in the dictionary has a row in the standard's transcription, so
+    the theorem above is not vacuous for any registered revision *)
+Lemma every_revision_has_a_spec :
+  forallb (fun x : string * check_fn => is_some (revision_spec (fst x))) check_dictionary = true.
+Proof. vm_compute. reflexivity. Qed.
+
+(** * Restricted revisions are at least as strict as the baseline ones they override *)
+
+Lemma restrictedVolumes_implies_hostPath : forall al r p, one_source_per_volume p = true ->
+  cr_allowed (restrictedVolumes_1_0 al r p) = true -> cr_allowed (hostPathVolumes_1_0 al r p) = true.
+Proof.
+  intros al r p H1. rewrite hostPathVolumes_1_0_spec. open_check restrictedVolumes_1_0. nil_norm.
+  unfold ok_hostPath, one_source_per_volume in *. rewrite !forallb_forall in *. intros Ha v Hv.
+  specialize (H1 v Hv). specialize (Ha v Hv). rewrite negb_involutive in Ha.
+  unfold volume_allowed in Ha.
+  destruct (v_sources v) as [|k [|k' l]]; [reflexivity| |discriminate H1].
+  unfold mem at 1. cbn [existsb]. rewrite orb_false_r.
+  destruct (String.eqb "hostPath" k) eqn:E; [|reflexivity].
+  apply String.eqb_eq in E. subst k. vm_compute in Ha. discriminate Ha.
+Qed.
+
+Lemma capabilitiesRestricted_1_22_implies_baseline : forall al r p, mem "NET_BIND_SERVICE" (al_caps al) = true ->
+  cr_allowed (capabilitiesRestricted_1_22 al r p) = true -> cr_allowed (capabilitiesBaseline_1_0 al r p) = true.
+Proof.
+  intros al r p Hn. rewrite capabilitiesRestricted_1_22_spec, ok_capabilities_restricted_22.
+  open_check capabilitiesBaseline_1_0. nil_norm. unfold every_container.
+  rewrite !forallb_forall. intros Ha c Hc. specialize (Ha c Hc).
+  unfold caps_restricted_ok in Ha. unfold caps_bad_adds.
+  destruct (csc sc_caps c) as [[add drop]|]; [|discriminate Ha].
+  apply andb_true_iff in Ha. destruct Ha as [_ Ha]. nil_norm.
+  rewrite forallb_forall in *. intros x Hx. specialize (Ha x Hx).
+  apply String.eqb_eq in Ha. subst x. rewrite negb_involutive. exact Hn.
+Qed.
+
+Lemma windows_fields p : is_windows p = true -> windows_no_linux_fields p = true ->
+  (forall c, In c (all_containers p) -> csc sc_caps c = None /\ csc sc_seccomp c = None)
+  /\ psc p_seccomp p = None.
+Proof.
+  intros W H. unfold windows_no_linux_fields in H. rewrite W in H. cbn [negb orb] in H.
+  apply andb_true_iff in H. destruct H as [Hc Hp]. split.
+  - rewrite forallb_forall in Hc. intros c Hin. specialize (Hc c Hin). unfold csc.
+    destruct (c_sc c) as [s|]; [|split; reflexivity].
+    apply andb_true_iff in Hc. destruct Hc as [Ha Hb].
+    destruct (sc_caps s); [discriminate Ha|]. destruct (sc_seccomp s); [discriminate Hb|].
+    split; reflexivity.
+  - unfold psc. destruct (pd_sc p) as [s|]; [|reflexivity].
+    destruct (p_seccomp s); [discriminate Hp|reflexivity].
+Qed.
+
+Lemma capabilitiesRestricted_1_25_implies_baseline : forall al r p, mem "NET_BIND_SERVICE" (al_caps al) = true ->
+  windows_no_linux_fields p = true ->
+  cr_allowed (capabilitiesRestricted_1_25 al r p) = true -> cr_allowed (capabilitiesBaseline_1_0 al r p) = true.
+Proof.
+  intros al r p Hn Hw. unfold capabilitiesRestricted_1_25.
+  destruct (is_windows p) eqn:W; [intros _|apply capabilitiesRestricted_1_22_implies_baseline, Hn].
+  destruct (windows_fields p W Hw) as [Hc _].
+  open_check capabilitiesBaseline_1_0. nil_norm. apply forallb_forall. intros c Hin.
+  unfold caps_bad_adds. rewrite (proj1 (Hc c Hin)). reflexivity.
+Qed.
+
+Lemma seccompRestricted_1_19_implies_baseline_1_19 : forall al r p,
+  cr_allowed (seccompProfileRestricted_1_19 al r p) = true -> cr_allowed (seccompProfileBaseline_1_19 al r p) = true.
+Proof.
+  intros al r p. open_check seccompProfileRestricted_1_19. open_check seccompProfileBaseline_1_19.
+  intros H. apply andb_true_iff in H. exact (proj1 H).
+Qed.
+
+Lemma seccompRestricted_1_25_implies_baseline_1_19 : forall al r p, windows_no_linux_fields p = true ->
+  cr_allowed (seccompProfileRestricted_1_25 al r p) = true -> cr_allowed (seccompProfileBaseline_1_19 al r p) = true.
+Proof.
+  intros al r p Hw. unfold seccompProfileRestricted_1_25.
+  destruct (is_windows p) eqn:W; [intros _|apply seccompRestricted_1_19_implies_baseline_1_19].
+  destruct (windows_fields p W Hw) as [Hc Hp].
+  open_check seccompProfileBaseline_1_19. rewrite seccomp_bad_setters_nil, Hp. cbn [ok_seccomp_type_or_undefined andb].
+  apply forallb_forall. intros c Hin. rewrite (proj2 (Hc c Hin)). reflexivity.
+Qed.
+
+(** the validity hypotheses are needed *)
+Definition example_allowlists : allowlists :=
+  AllowLists pss_capabilities (pss_sysctls 0) (pss_sysctls 27) (pss_sysctls 29) (pss_sysctls 32)
+             (pss_selinux_types 0) (pss_selinux_types 31).
+
+(** a volume with two sources, emptyDir and hostPath (rejected by API validation) *)
+Definition example_two_source_pod : pod :=
+  Pod "p" [] None false false false None None None [] [] []
+      [Volume "v" ["hostPath"; "emptyDir"]] None.
+
+(** an os=windows pod whose container adds SYS_ADMIN (rejected by API validation) *)
+Definition example_windows_caps_pod : pod :=
+  Pod "p" [] None false false false None (Some "windows") None []
+      [Container "c" "img" []
+         (Some (SecCtx None None None None None (Some (["SYS_ADMIN"], [])) None None None None))]
+      [] [] None.
+
+Example restrictedVolumes_needs_one_source : exists al p, cr_allowed (restrictedVolumes_1_0 al false p) = true /\ cr_allowed (hostPathVolumes_1_0 al false p) = false.
+Proof. exists example_allowlists, example_two_source_pod. vm_compute. split; reflexivity. Qed.
+
+Example capabilities_windows_needs_validity : exists al p, mem "NET_BIND_SERVICE" (al_caps al) = true /\ cr_allowed (capabilitiesRestricted_1_25 al false p) = true /\ cr_allowed (capabilitiesBaseline_1_0 al false p) = false.
+Proof. exists example_allowlists, example_windows_caps_pod. vm_compute. repeat split; reflexivity. Qed.
+
+Print Assumptions revisions_decide_standard.
+Print Assumptions restrictedVolumes_implies_hostPath.
+Print Assumptions capabilitiesRestricted_1_25_implies_baseline.
+Print Assumptions seccompRestricted_1_25_implies_baseline_1_19.
